@@ -10,6 +10,7 @@ from .. import arith as A
 from ..exact import exact_values, Unsupported
 
 ID = 'C16'
+TECHNIQUE = 'runtime monitoring: comparison events (dunder and __array_ufunc__ routes) and numeric conversions judged against exact Fractions of the stored codes'
 TITLE = 'comparisons and conversions'
 RULE = ('comparison events (< <= == != > >= between two Fxp of any formats with n_word<=24, Fxp vs number, number vs Fxp, arrays) must return the truth '
         'value of the same relation between the exact stored values (Fractions); conversion events get_val()/astype(float)/float() = code*LSB exactly, '
